@@ -74,9 +74,28 @@ def run(pid, tier):
         sf, so = sc.path("scen.ndjson"), sc.path("scen.traces.ndjson")
         write_ndjson(sf, scenarios)
         env = dict(GOENV, GORACE="halt_on_error=0 exitcode=0")
-        r = subprocess.run([race, "purity-run", "-mode", "conc", "-in", sf, "-out", so, "-reps", "4" if tier == "quick" else "20"], env=env, stdout=subprocess.PIPE, stderr=subprocess.PIPE, text=True, timeout=3000)
-        if r.returncode != 0:
-            raise Infra("race build of the harness failed to run the scenarios:\n" + (r.stderr or "")[-3000:])
+        # the scenarios are spread over processes of 300 each (several at a time): a race-detector process that has seen thousands of
+        # goroutines come and go loses sight of races it reports when fresh (measured: the same pair of calls is reported after 500
+        # scenarios and not after 2,000)
+        from concurrent.futures import ThreadPoolExecutor
+
+        class _R:
+            stderr = ""
+        CH = 300
+
+        def chunk(k):
+            cf, co = sc.path("scen.%d.ndjson" % k), sc.path("scen.%d.traces.ndjson" % k)
+            write_ndjson(cf, scenarios[k * CH:(k + 1) * CH])
+            p = subprocess.run([race, "purity-run", "-mode", "conc", "-in", cf, "-out", co, "-base", str(k * CH), "-reps", "4" if tier == "quick" else "20"],
+                               env=env, stdout=subprocess.PIPE, stderr=subprocess.PIPE, text=True, timeout=3000)
+            if p.returncode != 0:
+                raise Infra("race build of the harness failed to run the scenarios:\n" + (p.stderr or "")[-3000:])
+            return read_ndjson(co), p.stderr or ""
+        with ThreadPoolExecutor(max_workers=6) as ex:
+            parts = list(ex.map(chunk, range((len(scenarios) + CH - 1) // CH)))
+        write_ndjson(so, [t for ts, _ in parts for t in ts])
+        r = _R()
+        r.stderr = "\n".join(e for _, e in parts)
         # cold concurrent first use: one fresh process of the race build per operation, eight goroutines on distinct objects from a
         # barrier, nothing called before (objects decoded without the library)
         dump = sc.path("pool_dump.json")
